@@ -22,11 +22,13 @@ theorem nodup_of_pairwise_lt {l : List Nat} (h : l.Pairwise (· < ·)) : l.Nodup
 theorem Inv.find {s : St} (h : Inv s) {fu : Fut} (hm : fu ∈ s.futs) : findFut s.futs fu.fid = some fu :=
   findFut_of_mem h.1.fidNodup hm
 
-theorem Inv.idNodup {s : St} (h : Inv s) : (s.futs.map (·.id)).Nodup := by
-  rw [h.1.idsSent]; exact nodup_of_pairwise_lt h.1.sentInc
+theorem Core.idNodup {s : St} (h : Core s) : (s.futs.map (·.id)).Nodup := by
+  rw [h.idsSent]; exact nodup_of_pairwise_lt h.sentInc
+
+theorem Inv.idNodup {s : St} (h : Inv s) : (s.futs.map (·.id)).Nodup := h.1.idNodup
 
 /-- different futures have different message-ids -/
-theorem Inv.id_inj {s : St} (h : Inv s) {g g' : Fid} {fu fu' : Fut} (hg : findFut s.futs g = some fu)
+theorem Core.id_inj {s : St} (h : Core s) {g g' : Fid} {fu fu' : Fut} (hg : findFut s.futs g = some fu)
     (hg' : findFut s.futs g' = some fu') (he : fu.id = fu'.id) : g = g' := by
   have := eq_of_map_nodup (·.id) h.idNodup (findFut_mem hg) (findFut_mem hg') he
   rw [← findFut_fid hg, ← findFut_fid hg', this]
@@ -93,5 +95,419 @@ theorem poll_bad_msg {s : St} {f : Fid} {fu : Fut} {m : Msg} {rest : List Msg} (
     rw [if_pos hc]
     rw [hfuel, runHolding_succ, iter_bad (s := { s with rxOwner := some f }) las (.inr hs) hi hb]
     simp only [St.finish, releaseRx_eq, St.withPc, hq, List.head?_nil, List.tail_nil]
+
+/-! ## what a poll leaves alone -/
+
+def liveCount (l : List Fut) : Nat := (l.filter Fut.isLive).length
+
+theorem live_length (s : St) : s.live.length = liveCount s.futs := rfl
+
+theorem liveCount_setPc {l : List Fut} {f : Fid} {fu : Fut} (pc : Pc) (h : findFut l f = some fu) :
+    liveCount (setPc f pc l) + (if fu.isLive then 1 else 0)
+      = liveCount l + (if ({ fu with pc := pc } : Fut).isLive then 1 else 0) := by
+  induction l with
+  | nil => simp [findFut] at h
+  | cons x xs ih =>
+    simp only [findFut, List.find?_cons] at h
+    simp only [setPc]
+    by_cases hx : x.fid = f
+    · simp only [hx, beq_self_eq_true] at h
+      cases h
+      simp only [hx, beq_self_eq_true, if_true, liveCount, List.filter_cons]
+      split <;> split <;> simp <;> omega
+    · have hxf : (x.fid == f) = false := by simpa using hx
+      simp only [hxf] at h
+      simp only [hxf, Bool.false_eq_true, if_false, liveCount, List.filter_cons]
+      have := ih h
+      simp only [liveCount] at this
+      split <;> (try simp only [List.length_cons]) <;> omega
+
+theorem poll_not_live {s : St} {f : Fid} (h : ∀ fu, findFut s.futs f = some fu → fu.isLive = false) : s.poll f = s := by
+  unfold St.poll
+  rw [St.fut_eq]
+  split
+  · rfl
+  · rename_i fu hf
+    have := h fu hf
+    split <;> first | rfl | (rename_i hpc; simp [Fut.isLive, hpc] at this)
+
+theorem poll_owner_other {s : St} {f g : Fid} (h : Inv s) (ho : s.rxOwner = some g) (hg : g ≠ f) :
+    (s.poll f).rxOwner = some g := by
+  unfold St.poll
+  rw [St.fut_eq]
+  split
+  · exact ho
+  · rename_i fu hf
+    split
+    · exact ho
+    · exact ho
+    · simp only [ho, Option.isNone_some, Bool.false_and, Bool.false_eq_true, if_false, St.withPc]
+    · have : (s.rxOwner == some f) = false := by simp [ho, hg]
+      simp only [this, Bool.false_eq_true, if_false]; exact ho
+    · rename_i hpc; exact absurd hpc (h.1.noWaitReq f fu hf).1
+    · rename_i hpc
+      have := (h.2.readOk f fu hf (by simp) hpc).1
+      rw [ho] at this; exact absurd (Option.some.inj this) hg
+    · rename_i m hpc; exact absurd hpc ((h.1.noWaitReq f fu hf).2 m)
+
+
+/-! ## fair rounds drain the live futures -/
+
+/-- a condition `C` on states that polls preserve, with a measure `M` that no poll increases and that
+a poll of the lock owner (or, when the lock is free, of any live future) decreases -/
+structure Drain (C : St → Prop) (M : St → Nat) : Prop where
+  pres : ∀ s f, Inv s → C s → C (s.poll f)
+  le : ∀ s f, Inv s → C s → M (s.poll f) ≤ M s
+  lt : ∀ s f fu, Inv s → C s → findFut s.futs f = some fu → fu.isLive = true →
+    (s.rxOwner = some f ∨ s.rxOwner = none) → M (s.poll f) < M s
+
+/-- some future in `L` makes progress when polled: the lock owner, or (lock free) a live future -/
+def Cand (s : St) (L : List Fid) : Prop :=
+  (∃ g ∈ L, s.rxOwner = some g) ∨ (s.rxOwner = none ∧ ∃ g ∈ L, ∃ fu, findFut s.futs g = some fu ∧ fu.isLive = true)
+
+theorem fold_poll {C : St → Prop} {M : St → Nat} (d : Drain C M) (L : List Fid) (s : St) (hi : Inv s) (hc : C s) :
+    Inv (L.foldl St.poll s) ∧ C (L.foldl St.poll s) ∧ M (L.foldl St.poll s) ≤ M s ∧
+      (Cand s L → M (L.foldl St.poll s) < M s) := by
+  induction L generalizing s with
+  | nil => exact ⟨hi, hc, Nat.le_refl _, by rintro (⟨g, hg, _⟩ | ⟨_, g, hg, _⟩) <;> cases hg⟩
+  | cons f L ih =>
+    have hi1 := poll_inv f hi
+    have hc1 := d.pres s f hi hc
+    have hle := d.le s f hi hc
+    obtain ⟨h1, h2, h3, h4⟩ := ih (s.poll f) hi1 hc1
+    refine ⟨h1, h2, Nat.le_trans h3 hle, ?_⟩
+    intro hcand
+    simp only [List.foldl_cons]
+    rcases hcand with ⟨g, hg, ho⟩ | ⟨ho, g, hg, fu, hf, hl⟩
+    · by_cases hgf : g = f
+      · subst hgf
+        obtain ⟨fu, hf, hpc⟩ := hi.2.ownOk g ho (by simp)
+        have hl : fu.isLive = true := by rcases hpc with h | h <;> simp [Fut.isLive, h]
+        exact Nat.lt_of_le_of_lt h3 (d.lt s g fu hi hc hf hl (.inl ho))
+      · have hg' : g ∈ L := by simpa [hgf] using hg
+        exact Nat.lt_of_lt_of_le (h4 (.inl ⟨g, hg', poll_owner_other hi ho hgf⟩)) hle
+    · by_cases hlf : ∃ fu', findFut s.futs f = some fu' ∧ fu'.isLive = true
+      · obtain ⟨fu', hf', hl'⟩ := hlf
+        exact Nat.lt_of_le_of_lt h3 (d.lt s f fu' hi hc hf' hl' (.inr ho))
+      · have hs : s.poll f = s := poll_not_live (fun fu' hf' => by
+          cases hb : fu'.isLive with
+          | false => rfl
+          | true => exact absurd ⟨fu', hf', hb⟩ hlf)
+        have hgf : g ≠ f := fun he => hlf ⟨fu, he ▸ hf, hl⟩
+        have hg' : g ∈ L := by simpa [hgf] using hg
+        rw [hs] at h4 ⊢
+        exact h4 (.inr ⟨ho, g, hg', fu, hf, hl⟩)
+
+theorem cand_round {s : St} (hi : Inv s) (hl : s.live ≠ []) : Cand s (s.live.map (·.fid)) := by
+  cases ho : s.rxOwner with
+  | none =>
+    obtain ⟨fu, hfu⟩ := List.exists_mem_of_ne_nil _ hl
+    have hm := hfu
+    rw [St.live_eq, List.mem_filter] at hm
+    exact .inr ⟨ho, fu.fid, List.mem_map.mpr ⟨fu, hfu, rfl⟩, fu, hi.find hm.1, hm.2⟩
+  | some g =>
+    obtain ⟨fu, hf, hpc⟩ := hi.2.ownOk g ho (by simp)
+    refine .inl ⟨g, List.mem_map.mpr ⟨fu, ?_, findFut_fid hf⟩, ho⟩
+    rw [St.live_eq, List.mem_filter]
+    exact ⟨findFut_mem hf, by rcases hpc with h | h <;> simp [Fut.isLive, h]⟩
+
+theorem round_drain {C : St → Prop} {M : St → Nat} (d : Drain C M) (s : St) (hi : Inv s) (hc : C s) :
+    Inv s.round ∧ C s.round ∧ M s.round ≤ M s ∧ (s.live ≠ [] → M s.round < M s) := by
+  obtain ⟨h1, h2, h3, h4⟩ := fold_poll d (s.live.map (·.fid)) s hi hc
+  exact ⟨h1, h2, h3, fun hl => h4 (cand_round hi hl)⟩
+
+theorem rounds_of_no_live (n : Nat) (s : St) (h : s.live = []) : St.rounds n s = s := by
+  induction n with
+  | zero => rfl
+  | succ n ih =>
+    have : s.round = s := by simp [St.round, h]
+    simp [St.rounds, this, ih]
+
+/-- fair rounds drain every live future within `M s` rounds -/
+theorem rounds_drain {C : St → Prop} {M : St → Nat} (d : Drain C M) (n : Nat) (s : St) (hi : Inv s) (hc : C s)
+    (hn : M s ≤ n) : Inv (St.rounds n s) ∧ C (St.rounds n s) ∧ (St.rounds n s).live = [] := by
+  induction n generalizing s with
+  | zero =>
+    refine ⟨hi, hc, ?_⟩
+    cases hl : s.live with
+    | nil => exact hl
+    | cons x xs =>
+      have := (round_drain d s hi hc).2.2.2 (by simp [hl])
+      omega
+  | succ n ih =>
+    by_cases hl : s.live = []
+    · rw [rounds_of_no_live _ _ hl]; exact ⟨hi, hc, hl⟩
+    · obtain ⟨h1, h2, _, h4⟩ := round_drain d s hi hc
+      have := h4 hl
+      exact ih s.round h1 h2 (by omega)
+
+
+/-! ## case analysis of a poll -/
+
+/-- polling `f` runs the `recv` loop: `f` is live and owns the lock or finds it free -/
+def Runs (s : St) (f : Fid) : Prop :=
+  ∃ fu, findFut s.futs f = some fu ∧ fu.isLive = true ∧ (s.rxOwner = some f ∨ s.rxOwner = none)
+
+theorem set_owner_eq {s : St} {f : Fid} (h : s.rxOwner = some f) : ({ s with rxOwner := some f } : St) = s := by
+  cases s; simp only [St.mk.injEq, true_and, and_true] at h ⊢; exact h.symm
+
+/-- case analysis of a poll in a state satisfying the invariant -/
+theorem poll_cases {motive : St → Prop} (s : St) (f : Fid) (h : Inv s)
+    (skip : ¬ Runs s f → motive s)
+    (enqueue : ∀ fu, findFut s.futs f = some fu → fu.pc = .start → ¬ Runs s f →
+      motive { (s.withPc f .waitRx) with rxQueue := s.rxQueue ++ [f] })
+    (run : ∀ fu b, findFut s.futs f = some fu → fu.isLive = true → Runs s f →
+      Hold { s with rxOwner := some f } f → (b = true → findSlot s.slots fu.id = some .pending) →
+      motive (St.runHolding (s.inbox.length + 2) { s with rxOwner := some f } f fu.id b)) :
+    motive (s.poll f) := by
+  unfold St.poll
+  rw [St.fut_eq]
+  split
+  · rename_i hf
+    exact skip (by rintro ⟨fu, hf', _⟩; rw [hf] at hf'; cases hf')
+  · rename_i fu hf
+    have hnl : fu.isLive = false → ¬ Runs s f := by
+      rintro hl ⟨fu', hf', hl', _⟩
+      rw [hf] at hf'; cases hf'; rw [hl] at hl'; cases hl'
+    split
+    · rename_i hpc; exact skip (hnl (by simp [Fut.isLive, hpc]))
+    · rename_i hpc; exact skip (hnl (by simp [Fut.isLive, hpc]))
+    · rename_i hpc
+      have hl : fu.isLive = true := by simp [Fut.isLive, hpc]
+      split
+      · rename_i ho
+        simp only [Bool.and_eq_true, Option.isNone_iff_eq_none, List.isEmpty_iff] at ho
+        exact run fu false hf hl ⟨fu, hf, hl, .inr ho.1⟩ (hold_acquire h ho.1 hf) (by simp)
+      · rename_i ho
+        refine enqueue fu hf hpc ?_
+        rintro ⟨fu', hf', _, ho' | ho'⟩
+        · obtain ⟨fu'', hf'', hpc''⟩ := h.2.ownOk f ho' (by simp)
+          rw [hf] at hf''; cases hf''
+          rw [hpc] at hpc''; simp at hpc''
+        · have := h.2.freeOk ho'
+          simp [ho', this] at ho
+    · rename_i hpc
+      have hl : fu.isLive = true := by simp [Fut.isLive, hpc]
+      split
+      · rename_i ho
+        have ho : s.rxOwner = some f := by simpa using ho
+        have := run fu false hf hl ⟨fu, hf, hl, .inl ho⟩ (by rw [set_owner_eq ho]; exact hold_of_inv h ho hf) (by simp)
+        rw [set_owner_eq ho] at this; exact this
+      · rename_i ho
+        have ho : s.rxOwner ≠ some f := by simpa using ho
+        refine skip ?_
+        rintro ⟨fu', hf', _, ho' | ho'⟩
+        · exact ho ho'
+        · rcases h.2.waitOk f fu hf (by simp) hpc with h1 | h1
+          · exact ho h1
+          · rw [h.2.freeOk ho'] at h1; cases h1
+    · rename_i hpc; exact absurd hpc (h.1.noWaitReq f fu hf).1
+    · rename_i hpc
+      have hl : fu.isLive = true := by simp [Fut.isLive, hpc]
+      have hr := h.2.readOk f fu hf (by simp) hpc
+      have := run fu true hf hl ⟨fu, hf, hl, .inl hr.1⟩ (by rw [set_owner_eq hr.1]; exact hold_of_inv h hr.1 hf)
+        (fun _ => hr.2)
+      rw [set_owner_eq hr.1] at this; exact this
+    · rename_i m hpc; exact absurd hpc ((h.1.noWaitReq f fu hf).2 m)
+
+
+/-! ## polls only change program counters -/
+
+/-- identity of a future: its fid and its message-id -/
+def keys (l : List Fut) : List (Fid × Nat) := l.map fun x => (x.fid, x.id)
+
+theorem keys_setPc (f : Fid) (pc : Pc) (l : List Fut) : keys (setPc f pc l) = keys l := by
+  induction l with
+  | nil => rfl
+  | cons x xs ih =>
+    simp only [setPc]
+    split
+    · simp [keys]
+    · simp only [keys, List.map_cons] at ih ⊢; rw [ih]
+
+theorem runHolding_keys (fuel : Nat) (s : St) (f : Fid) (id : Nat) (b : Bool) (las : s.lockAcrossSend = false)
+    (hfuel : s.inbox.length < fuel) : keys (St.runHolding fuel s f id b).futs = keys s.futs := by
+  refine runHolding_ind (P := fun s' _ => s'.lockAcrossSend = false ∧ keys s'.futs = keys s.futs)
+    (Q := fun s' => keys s'.futs = keys s.futs) f id ?_ fuel s b ⟨las, rfl⟩ hfuel
+  intro s' b' ⟨las', hk⟩
+  apply iter_elim (motive := Iter.Post _ _) s' f id b' las' <;>
+    simp only [Iter.Post, St.finish, St.withPc, releaseRx_eq, keys_setPc] <;> intros <;> simp [*]
+
+theorem poll_keys {s : St} (f : Fid) (h : Inv s) : keys (s.poll f).futs = keys s.futs := by
+  apply poll_cases (motive := fun s' => keys s'.futs = keys s.futs) s f h
+  · intro _; rfl
+  · intros; simp only [St.withPc, keys_setPc]
+  · intro fu b _ _ _ hh _
+    exact runHolding_keys _ _ f fu.id b hh.1.las (by simp)
+
+theorem fold_poll_keys (L : List Fid) (s : St) (h : Inv s) : keys (L.foldl St.poll s).futs = keys s.futs := by
+  induction L generalizing s with
+  | nil => rfl
+  | cons f L ih => simp only [List.foldl_cons]; rw [ih _ (poll_inv f h), poll_keys f h]
+
+theorem fold_poll_inv (L : List Fid) (s : St) (h : Inv s) : Inv (L.foldl St.poll s) := by
+  induction L generalizing s with
+  | nil => exact h
+  | cons f L ih => exact ih _ (poll_inv f h)
+
+theorem round_inv {s : St} (h : Inv s) : Inv s.round := fold_poll_inv _ s h
+
+theorem rounds_inv (n : Nat) {s : St} (h : Inv s) : Inv (St.rounds n s) := by
+  induction n generalizing s with
+  | zero => exact h
+  | succ n ih => exact ih (round_inv h)
+
+/-- fair rounds neither create nor remove futures, and never change a future's message-id -/
+theorem rounds_keys (n : Nat) {s : St} (h : Inv s) : keys (St.rounds n s).futs = keys s.futs := by
+  induction n generalizing s with
+  | zero => rfl
+  | succ n ih =>
+    simp only [St.rounds]
+    rw [ih (round_inv h)]
+    exact fold_poll_keys _ s h
+
+/-- the future with a given fid keeps its message-id -/
+theorem id_of_keys {l l' : List Fut} (hk : keys l' = keys l) {g : Fid} {fu fu' : Fut}
+    (hn : (l.map (·.fid)).Nodup) (h : findFut l g = some fu) (h' : findFut l' g = some fu') : fu'.id = fu.id := by
+  have h1 : (fu'.fid, fu'.id) ∈ keys l := hk ▸ List.mem_map.mpr ⟨fu', findFut_mem h', rfl⟩
+  obtain ⟨x, hx, he⟩ := List.mem_map.mp h1
+  simp only [Prod.mk.injEq] at he
+  have : x = fu := eq_of_map_nodup (·.fid) hn hx (findFut_mem h) (by rw [he.1, findFut_fid h', findFut_fid h])
+  rw [← he.2, this]
+
+
+/-! ## closed transport: every pending operation fails (C07) -/
+
+theorem liveCount_done {l : List Fut} {f : Fid} {fu : Fut} (r : Res) (h : findFut l f = some fu) (hl : fu.isLive = true) :
+    liveCount (setPc f (.done r) l) + 1 = liveCount l := by
+  have := liveCount_setPc (.done r) h
+  rw [hl] at this
+  simpa [Fut.isLive] using this
+
+theorem liveCount_keep {l : List Fut} {f : Fid} {fu : Fut} {pc : Pc} (h : findFut l f = some fu) (hl : fu.isLive = true)
+    (hpc : ({ fu with pc := pc } : Fut).isLive = true) : liveCount (setPc f pc l) = liveCount l := by
+  have := liveCount_setPc pc h
+  rw [hl, hpc] at this
+  simpa using this
+
+/-- what a future gets whose own slot is in state `o` when the transport is closed and drained -/
+def parkedRes : Option Slot → Res
+  | some (.ready m) => if m.p2 then .ok m.tag else .err
+  | _ => .err
+
+/-- closed transport, nothing left to read; the futures selected by `F` are still live with their
+slot as it was (`slot0`), or have finished with what was parked for them -/
+structure ClosedC (F : Fid → Prop) (slot0 : Nat → Option Slot) (s : St) : Prop where
+  closed : s.closed = true
+  empty : s.inbox = []
+  target : ∀ g fu, findFut s.futs g = some fu → F g →
+    (fu.isLive = true ∧ findSlot s.slots fu.id = slot0 fu.id) ∨ fu.pc = .done (parkedRes (slot0 fu.id))
+
+theorem iter_closed {s : St} {f : Fid} {id : Nat} {b : Bool} (las : s.lockAcrossSend = false)
+    (hc : s.closed = true) (he : s.inbox = []) (hb : b = true → findSlot s.slots id = some .pending) :
+    ∃ sl, (sl = s.slots ∨ sl = setSlot id .complete s.slots) ∧
+      s.iter f id b = .stop (({ s with slots := sl }).finish f (parkedRes (findSlot s.slots id))) := by
+  apply iter_elim (motive := fun it => ∃ sl, (sl = s.slots ∨ sl = setSlot id .complete s.slots) ∧
+      it = .stop (({ s with slots := sl } : St).finish f (parkedRes (findSlot s.slots id)))) s f id b las
+  · intro _ h; exact ⟨s.slots, .inl rfl, by rcases h with h | h <;> simp [h, parkedRes]⟩
+  · intro m _ h; exact ⟨_, .inr rfl, by simp [h, parkedRes]⟩
+  · intro h _ _
+    have : findSlot s.slots id = some .pending := by rcases h with h | h; exact hb h; exact h
+    exact ⟨s.slots, .inl rfl, by simp [this, parkedRes]⟩
+  · intro _ _ h; simp [hc] at h
+  · intro m rest _ h; simp [he] at h
+  · intro m rest _ _ h; simp [he] at h
+  · intro m rest _ _ h; simp [he] at h
+  · intro m rest _ _ h; simp [he] at h
+
+theorem closed_run {F : Fid → Prop} {slot0 : Nat → Option Slot} {s : St} {f : Fid} {fu : Fut} {b : Bool}
+    (h : Hold s f) (hc : ClosedC F slot0 s) (hf : findFut s.futs f = some fu) (hl : fu.isLive = true)
+    (hb : b = true → findSlot s.slots fu.id = some .pending) :
+    ClosedC F slot0 (St.runHolding (s.inbox.length + 2) s f fu.id b) ∧
+      liveCount (St.runHolding (s.inbox.length + 2) s f fu.id b).futs < liveCount s.futs := by
+  have hfuel : s.inbox.length + 2 = (s.inbox.length + 1) + 1 := rfl
+  obtain ⟨sl, hsl, he⟩ := iter_closed (f := f) h.1.las hc.closed hc.empty hb
+  rw [hfuel, runHolding_succ, he]
+  dsimp only
+  simp only [St.finish, releaseRx_eq, St.withPc]
+  constructor
+  · refine ⟨hc.closed, hc.empty, ?_⟩
+    simp only [findFut_setPc_some]
+    rintro g fu' (⟨rfl, a, ha, rfl⟩ | ⟨hg, hf'⟩) hF
+    · rw [hf] at ha; cases ha
+      rcases hc.target g fu hf hF with ⟨_, h2⟩ | h2
+      · right; rw [h2]
+      · rw [Fut.isLive, h2] at hl; cases hl
+    · rcases hc.target g fu' hf' hF with ⟨h1, h2⟩ | h2
+      · left
+        refine ⟨h1, ?_⟩
+        rcases hsl with rfl | rfl
+        · exact h2
+        · rw [findSlot_setSlot, if_neg (fun he => hg (h.1.id_inj hf' hf he))]; exact h2
+      · right; exact h2
+  · have := liveCount_done (parkedRes (findSlot s.slots fu.id)) hf hl
+    omega
+
+
+theorem closed_poll {F : Fid → Prop} {slot0 : Nat → Option Slot} {s : St} (f : Fid) (h : Inv s) (hc : ClosedC F slot0 s) :
+    ClosedC F slot0 (s.poll f) ∧ liveCount (s.poll f).futs ≤ liveCount s.futs ∧
+      (Runs s f → liveCount (s.poll f).futs < liveCount s.futs) := by
+  apply poll_cases (motive := fun s' => ClosedC F slot0 s' ∧ liveCount s'.futs ≤ liveCount s.futs ∧
+      (Runs s f → liveCount s'.futs < liveCount s.futs)) s f h
+  · intro hn; exact ⟨hc, Nat.le_refl _, fun hr => absurd hr hn⟩
+  · intro fu hf hpc hn
+    have hl : fu.isLive = true := by simp [Fut.isLive, hpc]
+    refine ⟨⟨hc.closed, hc.empty, ?_⟩, ?_, fun hr => absurd hr hn⟩
+    · simp only [St.withPc, findFut_setPc_some]
+      rintro g fu' (⟨rfl, a, ha, rfl⟩ | ⟨hg, hf'⟩) hF
+      · rw [hf] at ha; cases ha
+        rcases hc.target g fu hf hF with ⟨_, h2⟩ | h2
+        · left; exact ⟨by simp [Fut.isLive], h2⟩
+        · rw [Fut.isLive, h2] at hl; cases hl
+      · exact hc.target g fu' hf' hF
+    · simp only [St.withPc]
+      rw [liveCount_keep hf hl (by simp [Fut.isLive])]; exact Nat.le_refl _
+  · intro fu b hf hl hr hh hb
+    have hc1 : ClosedC F slot0 { s with rxOwner := some f } := ⟨hc.closed, hc.empty, hc.target⟩
+    have := closed_run hh hc1 hf hl hb
+    exact ⟨this.1, Nat.le_of_lt this.2, fun _ => this.2⟩
+
+theorem closed_drain (F : Fid → Prop) (slot0 : Nat → Option Slot) :
+    Drain (ClosedC F slot0) (fun s => liveCount s.futs) where
+  pres _ f h hc := (closed_poll f h hc).1
+  le _ f h hc := (closed_poll f h hc).2.1
+  lt _ f fu h hc hf hl ho := (closed_poll f h hc).2.2 ⟨fu, hf, hl, ho⟩
+
+
+theorem not_live_of_live_nil {s : St} (h : s.live = []) {fu : Fut} (hm : fu ∈ s.futs) : fu.isLive = false := by
+  cases hl : fu.isLive with
+  | false => rfl
+  | true =>
+    have : fu ∈ s.live := by rw [St.live_eq, List.mem_filter]; exact ⟨hm, hl⟩
+    rw [h] at this; cases this
+
+theorem closed_rounds {s : St} (h : Inv s) (hc : s.closed = true) (he : s.inbox = []) (n : Nat)
+    (hn : s.live.length ≤ n) :
+    (St.rounds n s).live = [] ∧ ∀ f0 ∈ s.live, ∀ f ∈ (St.rounds n s).futs, f.fid = f0.fid →
+      f.id = f0.id ∧ f.pc = .done (parkedRes (s.slot f0.id)) := by
+  let F : Fid → Prop := fun g => ∃ fu, findFut s.futs g = some fu ∧ fu.isLive = true
+  have hc0 : ClosedC F (findSlot s.slots) s := by
+    refine ⟨hc, he, ?_⟩
+    rintro g fu hf ⟨fu', hf', hl⟩
+    rw [hf] at hf'; cases hf'
+    exact .inl ⟨hl, rfl⟩
+  obtain ⟨hi', hc', hl'⟩ := rounds_drain (closed_drain F (findSlot s.slots)) n s h hc0 hn
+  refine ⟨hl', ?_⟩
+  intro f0 hf0 f hf hfid
+  rw [St.live_eq, List.mem_filter] at hf0
+  have h0 := h.find hf0.1
+  have h1 := hi'.find hf
+  rw [hfid] at h1
+  have hid : f.id = f0.id := id_of_keys (rounds_keys n h) h.1.fidNodup h0 h1
+  refine ⟨hid, ?_⟩
+  rcases hc'.target f0.fid f h1 ⟨f0, h0, hf0.2⟩ with ⟨hl, _⟩ | hd
+  · rw [not_live_of_live_nil hl' hf] at hl; cases hl
+  · rw [hd, hid, St.slot_eq]
+
 
 end Session
